@@ -81,7 +81,7 @@ theorem C14_operator (glob : String → String → Bool) (fs : List (String × M
     (h : operatorParts fs = some (op, v)) :
     matchValue glob (.dict fs) r = .ok (cmpSpec (parseOp op) r v) := by
   rw [matchValue, h]
-  simp only [operatorFilter, operatorCmp]
+  simp only [operatorFilter_eq, operatorCmp]
   cases parseOp op with
   | none => rfl
   | some o =>
@@ -121,7 +121,7 @@ private theorem pyCmp_none_right (strict : Bool) (v : MVal) : pyCmp strict v .no
 
 private theorem operator_none (op v : MVal) :
     operatorFilter op .none v = .ok (parseOp op == some .eq && isNone v) := by
-  simp only [operatorFilter, operatorCmp]
+  simp only [operatorFilter_eq, operatorCmp]
   cases parseOp op with
   | none => rfl
   | some o =>
